@@ -31,6 +31,31 @@ def _quiet():
     warnings.simplefilter('ignore')
 
 
+def _logging_mode(family_name):
+    """Results must not depend on the logging level: every second family (by a
+    hash of its name; all of them with OVC_DEBUG_LOGGING=1, none with =0) runs
+    with the `omega` loggers ENABLED at DEBUG level (records are discarded by a
+    NullHandler), so that code under `log.isEnabledFor(DEBUG)` and the
+    arguments of `log.debug(...)` are exercised too."""
+    import logging
+    mode = os.environ.get('OVC_DEBUG_LOGGING')
+    on = (mode == '1') or (mode != '0' and hashlib.sha1(family_name.encode()).digest()[0] & 1)
+    lg = logging.getLogger('omega')
+    if on:
+        logging.disable(logging.NOTSET)
+        lg.setLevel(logging.DEBUG)
+        lg.propagate = False
+        if not any(isinstance(h, logging.NullHandler) for h in lg.handlers):
+            lg.addHandler(logging.NullHandler())
+        for name, sub in list(logging.root.manager.loggerDict.items()):
+            if name.startswith('omega.') and isinstance(sub, logging.Logger):
+                sub.setLevel(logging.NOTSET)
+    else:
+        lg.setLevel(logging.CRITICAL)
+        logging.disable(logging.WARNING)
+    return bool(on)
+
+
 def _setup_path():
     if HERE not in sys.path:
         sys.path.insert(0, HERE)
@@ -51,6 +76,7 @@ def _job(i):
     t0 = time.time()
     from ovc import engine as _eng
     _eng.reset_ground_cache()
+    debug_logging = _logging_mode(fam['name'])
     try:
         res = fam['run']()
         res.setdefault('records', [])
@@ -60,6 +86,7 @@ def _job(i):
                    crash=''.join(traceback.format_exception(e))[-3000:],
                    crash_kind=type(e).__name__)
     res['family'] = fam['name']
+    res['debug_logging'] = debug_logging
     res['label'] = fam.get('label', 'per-shape')
     res['wall_s'] = round(time.time() - t0, 3)
     return i, res
